@@ -38,12 +38,15 @@ def v_rules(schema: Schema, rep: Report):
     if not stores:
         raise AnalysisError("V-R1: reducer stores nothing")
     good = {f"{elem}.text", f"Aggregate.from_etree({elem})", f"{cls}.from_etree({elem})", "None"}
+    # `text or from_etree(elem)`: the text when there is some, the conversion otherwise - both branches in one expression
+    either = {f"{elem}.text or Aggregate.from_etree({elem})", f"{elem}.text or {cls}.from_etree({elem})"}
+    good |= either
     for n, v, kind in stores:
         vals = sorted({text(x) for x in resolve_values(v, n, reach)})
-        ok = bool(vals) and set(vals) <= good and f"{elem}.text" in vals
+        ok = bool(vals) and set(vals) <= good and (f"{elem}.text" in vals or bool(set(vals) & either))
         rep.check("V-R1", f"update_args:{kind}:value", ok, f"stored value can be {vals}; expected the element's text / its conversion, unmodified" if not ok else "", f"{rel}:{n.stmt.lineno}")
     # branch discipline: text -> data element; no text -> recurse; unsupported -> None
-    val_assigns = [s for s in own_statements(inner) if isinstance(s, (ast.Assign, ast.AnnAssign)) and text(s.value if s.value is not None else ast.Constant(value=None)) in good]
+    val_assigns = [s for s in own_statements(inner) if isinstance(s, (ast.Assign, ast.AnnAssign)) and s.value is not None and text(s.value) in good]
     for s in val_assigns:
         tv = text(s.value)
         par = getattr(s, "_parent", None)
